@@ -19,7 +19,7 @@ import time
 
 import z3
 
-from contracts import od
+from contracts import od, caseless
 from vc import common
 from vc.common import Obligation, Bounded, PROVED, REFUTED, UNDECIDED, ERROR
 from vc.pyvc import source
@@ -50,6 +50,11 @@ def make_engine():
     eng = E.Engine(lat, contracts)
     eng.globals["to_unicode"] = E.VBuiltin("to_unicode")
     E.BUILTINS["to_unicode"] = E.to_unicode_contract
+    E.BUILTINS["iter"] = caseless.b_iter
+    caseless.register(contracts)              # self[key] = value inside update() goes through the proved contract
+    contracts["ref.items"] = caseless.ref_items
+    contracts["loop:iter"] = caseless.loop_over_pairs
+    eng.attr_classes["items"] = {"dict"}
     return eng
 
 
@@ -102,6 +107,7 @@ def method_obligations(rep, eng, mname, tier):
     st, env, addr = initial_state(eng, params)
     pre = [E.map_wf(st.heap[addr])]
     st.assume(*pre)
+    st0_map = E.MapObj.fresh("old")
     # parameters with defaults that the reference must receive as the signature supplies them
     paths = eng.run(node, env, st)
     # reference: dict primitive at K = up(tu(key))
@@ -126,8 +132,32 @@ def method_obligations(rep, eng, mname, tier):
     for pa in paths:
         for pb in ref_paths:
             goal = outcome_equal(eng, pa, addr, pb, addr2)
-            status, secs, info = check_unsat(eng.axioms, [pa.pc, pb.pc], goal, tmo)
+            status, secs, info = check_unsat(eng.axioms, [pa.pc, pb.pc], goal, tmo if False else 4000, use_cvc5=False)
             ob.seconds += secs
+            if status == "undecided":
+                # refutation attempt on ground instances of the quantified invariant (DESIGN.md 3.6): a model of the
+                # weaker hypotheses is only a SHAPE; it counts as a refutation only if a native input confirms it
+                kz = z3.Const("key", E.S)
+                kterms = [kz, E.tu(kz), E.up(E.tu(kz)), E.up(kz)]
+                ghyps = list(pa.state.pc) + list(pb.state.pc) + E.map_wf_at(st0_map, kterms)
+                gax = [a for a in eng.axioms if not z3.is_quantifier(a)]
+                for t in kterms:
+                    gax.append(E.up(E.up(t)) == E.up(t))
+                st_g, secs_g, info_g = check_unsat(gax, ghyps, goal, 5000, use_cvc5=False)
+                ob.seconds += secs_g
+                if st_g == "refuted":
+                    status, info = "shape", info_g
+                elif st_g == "proved":
+                    status, info = "proved", "ground instances suffice"
+                else:
+                    status2, secs2, info2 = check_unsat(eng.axioms, [pa.pc, pb.pc], goal, tmo)
+                    ob.seconds += secs2
+                    status, info = status2, info2
+            if status == "shape":
+                ob.status = REFUTED
+                ob.detail = f"impl path {pa.kind} vs reference {pb.kind}: ground-instance model (shape) {model_str(info, terms)}"
+                ob.backend = "z3 (ground instances) + native confirmation required"
+                break
             if status == "refuted":
                 ob.status = REFUTED
                 ob.detail = f"impl path {pa.kind} vs reference {pb.kind}: model {model_str(info, terms)}"
@@ -157,6 +187,64 @@ def method_obligations(rep, eng, mname, tier):
                      lines=lines, detail="requires is satisfiable and paths exist")
     obs.append(ob3)
     return obs
+
+
+def update_obligations(rep, eng, tier):
+    """update(*args, **kwargs): every pair of every positional iterable/mapping, then every keyword, goes through one
+    reference step view[K(k)] = v, in that order, and nothing else touches the view."""
+    target = "caselessdict:CaselessDict.update"
+    mod, node = source.find(target)
+    if node is None:
+        return [Obligation(f"{PID}.update.fold_of_setitem", target, "z3", UNDECIDED, detail="function not found in source")]
+    lines = source.lines_of(node)
+    a = node.args
+    if not (a.vararg and a.kwarg and [p.arg for p in a.args] == ["self"]):
+        return [Obligation(f"{PID}.update.fold_of_setitem", target, "z3", UNDECIDED, detail="signature is not (self, *args, **kwargs)", lines=lines)]
+    tmo = TIMEOUT_MS[tier]
+    ob = Obligation(f"{PID}.update.fold_of_setitem", target, "z3", PROVED, lines=lines)
+    ob_body = Obligation(f"{PID}.update.loop_body_is_reference_step", target, "z3", PROVED, lines=lines)
+    ob_wf = Obligation(f"{PID}.update.wf_preserved", target, "z3", PROVED, lines=lines)
+    npaths = 0
+    for nargs in (0, 1, 2):
+        st = E.State()
+        m = E.MapObj.fresh("old")
+        addr = st.alloc(m)
+        st.assume(E.map_wf(m))
+        argrefs = [z3.Const(f"arg{i}", E.Ref) for i in range(nargs)]
+        kwref = z3.Const("kwargs", E.Ref)
+        st.assume(E.cls_of(kwref) == eng.lat.id("dict"))
+        env = {"self": E.VMap(addr), a.vararg.arg: E.VTuple([E.VRef(r) for r in argrefs]), a.kwarg.arg: E.VRef(kwref)}
+        paths = eng.run(node, env, st)
+        for pa in paths:
+            npaths += 1
+            if pa.kind == "undecided":
+                ob.status, ob.detail = UNDECIDED, pa.value
+                continue
+            if pa.kind == "raise":
+                ob.status, ob.detail = REFUTED, f"update raises {pa.value.cls} with {nargs} positional arguments"
+                continue
+            trace = pa.state.ghost.get("fold_trace", [])
+            exp = [z3.If(eng.has_attr_z(r, "items"), caseless.items_of(r), caseless.as_pairs(r)) for r in argrefs]
+            exp.append(caseless.items_of(kwref))
+            goal = z3.And(*[t == e for t, e in zip(trace, exp)]) if len(trace) == len(exp) else z3.BoolVal(False)
+            status, secs, info = check_unsat([x for x in eng.axioms if not z3.is_quantifier(x)], list(pa.state.pc), goal, tmo, use_cvc5=False)
+            ob.seconds += secs
+            if status != "proved" and ob.status == PROVED:
+                ob.status = REFUTED if status == "refuted" else UNDECIDED
+                ob.detail = (f"{nargs} positional argument(s): ghost trace of applied pair sequences {[str(t) for t in trace]} "
+                             f"is not [pairs of each positional argument..., keyword pairs] = {[str(e) for e in exp]}")
+            status, secs, info = check_unsat(eng.axioms, [pa.pc], E.map_wf(pa.state.heap[addr]), tmo)
+            ob_wf.seconds += secs
+            if status != "proved" and ob_wf.status == PROVED:
+                ob_wf.status, ob_wf.detail = (REFUTED if status == "refuted" else UNDECIDED), str(info)[:200]
+            for name, s2, goal in pa.state.ghost.get("loop_obls", []):
+                fs = s2.pc + s2.qpc
+                status, secs, info = check_unsat(eng.axioms, fs, goal, tmo)
+                ob_body.seconds += secs
+                if status != "proved" and ob_body.status == PROVED:
+                    ob_body.status, ob_body.detail = (REFUTED if status == "refuted" else UNDECIDED), f"{name}: {str(info)[:200]}"
+    ob.detail = ob.detail or f"{npaths} paths over 0, 1 and 2 positional arguments"
+    return [ob, ob_body, ob_wf]
 
 
 # ---------------------------------------------------------------------------------------------------
@@ -212,8 +300,8 @@ def concretise(mname):
     """Search the small native domain for an input on which the real method disagrees with the reference."""
     vals = [1, None]
     for n in range(0, 3):
-        for ks in itertools.product(KEYS[:6], repeat=n):
-            items = [(k, i + 10) for i, k in enumerate(ks)]
+        for ks, vs in itertools.product(itertools.product(KEYS[:6], repeat=n), itertools.product([10, 1, None], repeat=n)):
+            items = list(zip(ks, vs))
             for key in KEYS:
                 for extra in ([()] + [(v,) for v in vals]):
                     if mname == "__setitem__" and not extra:
@@ -226,6 +314,24 @@ def concretise(mname):
                         msg = f"{mname} crashed natively: {type(e).__name__}: {e}"
                     if msg:
                         return {"method": mname, "items": repr(items), "key": repr(key), "extra": repr(extra)}, msg
+    return None, None
+
+
+def concretise_update():
+    from props import C17_bnd
+    from icalendar.caselessdict import CaselessDict
+    for op in C17_bnd.op_instances():
+        if not op[0].startswith("update"):
+            continue
+        for pre in ([], [("setitem", "a", 1)], [("setitem", "b", 1)]):
+            real, ref = CaselessDict(), {}
+            msg = None
+            for o in pre + [op]:
+                real, ref, msg = C17_bnd.apply(CaselessDict, real, ref, o)
+                if msg:
+                    break
+            if msg:
+                return {"method": "update", "ops": repr(pre + [op])}, msg
     return None, None
 
 
@@ -251,9 +357,26 @@ def run(rep: common.Report):
                 w, msg = concretise(mname)
                 if w is not None:
                     ob.witness, ob.replay = w, {"confirmed": True, "native": msg}
+                elif "shape" in ob.detail:
+                    ob.status = UNDECIDED
+                    ob.detail += " -- not confirmed natively, so not a refutation"
                 else:
                     ob.replay = {"confirmed": False, "native": "no failing input in the small native domain"}
             rep.add(ob)
+    try:
+        uobs = update_obligations(rep, eng, rep.tier)
+    except Exception as e:  # noqa
+        import traceback
+        traceback.print_exc()
+        uobs = [Obligation(f"{PID}.update.fold_of_setitem", "caselessdict:CaselessDict.update", "z3", ERROR, detail=repr(e))]
+    for ob in uobs:
+        if ob.status == REFUTED:
+            w, msg = concretise_update()
+            if w is not None:
+                ob.witness, ob.replay = w, {"confirmed": True, "native": msg}
+            else:
+                ob.replay = {"confirmed": False, "native": "no failing input in the small native domain"}
+        rep.add(ob)
     rep.extra["solver_seconds_path_pruning"] = round(eng.solver_time, 3)
     rep.explanation = __doc__
     # assumed-contract cross-checks (a failure is a checker error, exit 3, never a violation)
@@ -286,6 +409,16 @@ def replay(payload: dict) -> int:
     if not w:
         print("replay: no concrete input recorded; verifier output:", payload.get("verifier_output"))
         return 1
+    if w.get("method") == "update":
+        from props import C17_bnd
+        from icalendar.caselessdict import CaselessDict
+        real, ref, msg = CaselessDict(), {}, None
+        for o in eval(w["ops"]):
+            real, ref, msg = C17_bnd.apply(CaselessDict, real, ref, o)
+            if msg:
+                break
+        print("replay:", msg or "no disagreement on the current tree")
+        return 1 if msg else 0
     msg = native_method_check(w["method"], eval(w["items"]), eval(w["key"]), eval(w["extra"]))
     print("replay:", msg or "no disagreement on the current tree")
     return 1 if msg else 0
